@@ -456,7 +456,7 @@ func genCase(rng *rand.Rand, n int, seed int64, pf Profile) *CaseDesc {
 					rets = append(rets, t)
 				}
 			}
-			if len(pending) > 0 && chance(rng, 0.06) {
+			if len(pending) > 0 && chance(rng, 0.09) {
 				// overrides a value returned from below without receiving it: only valid with AllowReturnShadowing on
 				// THIS wrapper
 				t := pick(rng, pending)
@@ -465,7 +465,15 @@ func genCase(rng *rand.Rand, n int, seed int64, pf Profile) *CaseDesc {
 					switch x := rng.Float64(); {
 					case x < 0.4:
 						p.ShadowOK = append(p.ShadowOK, t)
-					case x < 0.75:
+					case x < 0.55:
+						// the wrapper carries AllowReturnShadowing, but for ANOTHER type
+						for _, u := range pool {
+							if u != t {
+								p.ShadowOK = append(p.ShadowOK, u)
+								break
+							}
+						}
+					case x < 0.8:
 						// the annotation sits on the LOWEST returner of t instead: that does not license this override
 						for j := len(c.Provs) - 1; j > i; j-- {
 							q := c.Provs[j]
